@@ -37,6 +37,9 @@ type harnessSpec struct {
 	Config       json.RawMessage `json:"config"`
 	Thorough     json.RawMessage `json:"thorough_config"` // overrides for the thorough tier
 	NativeReplay *bool           `json:"native_replay"`
+	// NativeRetries > 1: the native run is not deterministic (Go map iteration order); a counterexample is
+	// confirmed when one of the runs fails the assertion, a witness is validated when one run passes
+	NativeRetries int `json:"native_retries"`
 	What         string          `json:"what"`
 }
 
@@ -171,7 +174,11 @@ func cmdCheck(args []string) int {
 				tries[key]++
 				confirmed, how := true, "interpreter (native replay not applicable for this harness)"
 				if native {
-					confirmed, how = nativeReplay(&g, h.Fn, v)
+					for try := 0; try < max(1, h.NativeRetries); try++ {
+						if confirmed, how = nativeReplay(&g, h.Fn, v); confirmed {
+							break
+						}
+					}
 				}
 				if !confirmed {
 					fmt.Printf("    unconfirmed counterexample for %s: %s\n", v.Assert, how)
@@ -210,6 +217,11 @@ func cmdCheck(args []string) int {
 					nw = max
 				}
 				ok, bad := nativeWitnesses(&g, h.Fn, s.Witnesses[:nw])
+				if h.NativeRetries > 1 {
+					// every witness must pass in at least one of the runs
+					okAll, badAll := retryWitnesses(&g, h.Fn, s.Witnesses[:nw], h.NativeRetries)
+					ok, bad = okAll, badAll
+				}
 				validated += ok
 				if bad != "" {
 					engineErr = true
@@ -408,6 +420,44 @@ func nativeWitnesses(g *checkGroup, fn string, tapes [][]interp.TapeEntry) (int,
 		return ok, fmt.Sprintf("only %d of %d witness tapes completed natively: %s", ok, len(tapes), firstLines(out, 8))
 	}
 	return ok, ""
+}
+
+// retryWitnesses: native runs differ from each other (map iteration order); each witness tape
+// must complete without failures in at least one of n runs.
+func retryWitnesses(g *checkGroup, fn string, tapes [][]interp.TapeEntry, n int) (int, string) {
+	passed := make([]bool, len(tapes))
+	last := ""
+	for try := 0; try < n; try++ {
+		out, _ := runNative(g, fn, tapes)
+		for _, l := range strings.Split(out, "\n") {
+			if !strings.HasPrefix(l, "REPLAY ") {
+				continue
+			}
+			var idx int
+			if _, err := fmt.Sscanf(l, "REPLAY %04d.tape.json", &idx); err != nil || idx >= len(tapes) {
+				continue
+			}
+			if strings.Contains(l, "DONE failures=[]") {
+				passed[idx] = true
+			} else if !passed[idx] {
+				last = l
+			}
+		}
+		all := true
+		for _, p := range passed {
+			all = all && p
+		}
+		if all {
+			return len(tapes), ""
+		}
+	}
+	ok := 0
+	for _, p := range passed {
+		if p {
+			ok++
+		}
+	}
+	return ok, fmt.Sprintf("witness never passed natively in %d runs: %s", n, last)
 }
 
 func replayViolation(spec *checkSpec, path string) int {
